@@ -7,7 +7,8 @@
 (*   {"ev":"op","st":<statement>,"err":false,"res":<tree>,"lens":[n,n,n]}    *)
 (*   {"ev":"op","st":<statement>,"err":true}      the run ended with a       *)
 (*                                                runtime error here         *)
-(*   {"ev":"final","arrs":[<tree>,<tree>,<tree>]} the contents at the end    *)
+(*   {"ev":"final","arrs":[<tree>,<tree>,<tree>]} the contents now (recorded  *)
+(*                                after every 16th statement and at the end) *)
 (* A line is accepted iff the model's action (JqHeap.Exec) from the current  *)
 (* model state explains it; the behaviour is as long as the accepted prefix. *)
 (* With "shared-receiver" \in Deviations a line may also be explained by the *)
